@@ -169,6 +169,10 @@ class Enc:
             s, c = self.sincos(e.args[0])
             self.domain.append(s != 0)
             return 1 / s
+        if isinstance(e, sp.floor):
+            return z3.ToReal(z3.ToInt(self.tr(e.args[0])))
+        if isinstance(e, sp.ceiling):
+            return -z3.ToReal(z3.ToInt(-self.tr(e.args[0])))
         if isinstance(e, sp.atan2):
             return self.atan2(e.args[0], e.args[1])
         if isinstance(e, sp.acos):
